@@ -143,6 +143,9 @@ def compare(c, cs, rs, g):
     sig = "frame=%s:class=%d" % ("dyadic" if cs["frame"].startswith("dyadic") else "generic", cs["cls"])
     dep = g["dep"]
     info = {"case": cs, "spec": rs, "code": g}
+    # (0) every number the code reports is finite
+    if not all(math.isfinite(x) for x in list(dep) + list(g["end"]) + list(g["heat"]) + [g["tauleft"]]):
+        return c.violation("ray:nonfinite:%s" % sig, "non-finite path length, position or optical depth (%s)" % cs, info)
     # (1) straight-line distance = sum of credited paths
     end = [g["end"][k] * u[k] for k in range(3)]
     start = [cs["p"][k] * u[k] for k in range(3)]
